@@ -37,10 +37,13 @@ WhyIO(c, o) ==
     IF o.shape # sh THEN "io-shape"
     ELSE IF \E idx \in Indices(sh) : ~ok(Code(idx, sh), o.vals[idx[1] + 1][idx[2] + 1][idx[3] + 1][idx[4] + 1]) THEN "io-values-" \o c.sd \o "-" \o fd \o "-" \o c.ld
     ELSE ""
+\* the box that is rendered: the tree's own bounding box, or the block asked for with ranges = (lo, hi) (c.box, lattice coordinates)
+BoxLo(c, ax) == IF "box" \in DOMAIN c THEN c.box[1][ax] ELSE Lo(c.pos, c.rad, ax)
+BoxHi(c, ax) == IF "box" \in DOMAIN c THEN c.box[2][ax] ELSE Hi(c.pos, c.rad, ax)
 WhyRaster(c, o) ==
     LET S == c.S
-        n(ax) == NVox(Lo(c.pos, c.rad, ax), Hi(c.pos, c.rad, ax), c.resS[ax], S)
-        ctr(i, j, k) == <<Centre(Lo(c.pos, c.rad, 1), i, c.resS[1], S), Centre(Lo(c.pos, c.rad, 2), j, c.resS[2], S), Centre(Lo(c.pos, c.rad, 3), k, c.resS[3], S)>> IN
+        n(ax) == NVox(BoxLo(c, ax), BoxHi(c, ax), c.resS[ax], S)
+        ctr(i, j, k) == <<Centre(BoxLo(c, 1), i, c.resS[1], S), Centre(BoxLo(c, 2), j, c.resS[2], S), Centre(BoxLo(c, 3), k, c.resS[3], S)>> IN
     IF o.shape # <<n(3), n(1), n(2)>> THEN "raster-shape"
     ELSE IF \E k \in 0 .. n(3) - 1 : \E i \in 0 .. n(1) - 1 : \E j \in 0 .. n(2) - 1 :
               LET v == o.vox[k + 1][i + 1][j + 1] IN
